@@ -1154,7 +1154,38 @@ func propC11(run *Run, n int) {
 			}
 		}
 		addC11Case(run, o, a, b)
+		if i%40 == 0 {
+			// two hunks whose paths differ but PRINT alike when their elements are joined (a key that holds a separator):
+			// ["a","b"] next to ["a b"], ["a/b"], ["a.b"], ["a,b"], ["[a b]"] — both change
+			ja, jb := joinCollisionPair(r)
+			run.Count("paths-that-print-alike")
+			addC11Case(run, OptMerge, ja, jb)
+		}
 	}
+}
+
+func joinCollisionPair(r *Rng) (*Val, *Val) {
+	x, y := "a", "b"
+	if r.Chance(1, 3) {
+		x, y = "k", "1"
+	}
+	seps := []string{" ", "/", ".", ",", "~1", "\x00", "\"", "][", " | "}
+	sep := seps[r.Intn(len(seps))]
+	joined := x + sep + y
+	if r.Chance(1, 6) {
+		joined = "[" + x + " " + y + "]"
+	}
+	a := VObj(x, VObj(y, VNum(1)), joined, VNum(1))
+	b := VObj(x, VObj(y, VNum(2)), joined, VNum(2))
+	switch r.Intn(4) {
+	case 0: // the nested member is deleted, the joined one changes
+		b = VObj(x, VObj(), joined, VNum(2))
+		a.O[x].O["z"] = VNum(0)
+		b.O[x].O["z"] = VNum(0)
+	case 1: // at depth
+		a, b = VObj("r", a), VObj("r", b)
+	}
+	return a, b
 }
 
 func addC11Case(run *Run, o OptSet, a, b *Val) {
